@@ -232,8 +232,7 @@ arbitrarily nested `subgraph` constructions — every automatically generated va
 the root graph and of all subgraphs of the builder tree; every call appends one node (an inlining: all clones)
 to one of them; opening and closing a subgraph only moves graphs between "current / enclosing / finished"; so
 the count strictly increases along the trace.
-Still `_partial` in one respect: the statement is about the tuples, not their rendering
-`v_{scope}.{op}_{count}[_{i}]`, which is not injective (`names_unique_refuted_opname`, D20f — open). -/
+This is the statement on the tuples; `names_unique_rendered` lifts it to the rendered strings. -/
 theorem names_unique_partial (fns : List Fn) (tr : List Item) :
     ((build fns tr).vkeys.filter isAutoKey).Nodup :=
   (Inv.foldl fns tr St.init Inv.init).2
@@ -243,16 +242,21 @@ theorem auto_counts_bounded (fns : List Fn) (tr : List Item) :
     ∀ k ∈ (build fns tr).vkeys, ∀ p o c i, k = VKey.auto p o c i → c < nodeCount true (build fns tr) :=
   (Inv.foldl fns tr St.init Inv.init).1
 
-/-- **String-level uniqueness for the count-last naming** (`{op}_{count}` / `{op}_{i}_{count}`, proposed fix
-C18-D20f).  For every trace and *every* operator / function / scope name — no "plain name" hypothesis — the
-automatic value names, as strings, are pairwise distinct: an automatic name ends in the digits of its node count
-preceded by a non-digit (`digit_suffix_unique`), the count is unique per node across the builder tree
-(`names_unique_partial`), and keys made with one count share scope and op (`sameNode_foldl`) and differ in the
-output index.  With the current order `{op}_{count}_{i}` this is false (`names_unique_refuted_opname`). -/
-theorem names_unique_rendered_countlast (fns : List Fn) (tr : List Item) :
-    (((build fns tr).vkeys.filter isAutoKey).map VKey.renderNew).Nodup :=
-  renderNew_nodup _ (names_unique_partial fns tr)
+/-- **Names are unique — as strings** (after commit 5c71050: `{op}_{count}` / `{op}_{i}_{count}`).  For every
+trace and *every* operator / function / scope name — no "plain name" hypothesis — the automatic value names, as
+rendered by `_adapt_outputs` + `_qualify_value_name`, are pairwise distinct: an automatic name ends in the digits
+of its node count preceded by a non-digit (`digit_suffix_unique`), the count is unique per node across the builder
+tree (`names_unique_partial`), and the names made with one count share scope and op (`sameNode_foldl`) and differ
+in the output index.  (Names chosen by the user — explicit `_outputs`, graph inputs — and the `prefix + body name`
+family of `call_inline` are outside this statement: their uniqueness is the caller's / the callee's.) -/
+theorem names_unique_rendered (fns : List Fn) (tr : List Item) :
+    (((build fns tr).vkeys.filter isAutoKey).map VKey.render).Nodup := by
+  have h := renderNew_nodup _ (names_unique_partial fns tr)
     (sameNode_foldl fns tr St.init Inv.init (by intro p o c i p' o' i' h; simp [St.init] at h))
+  have hr : VKey.render = VKey.renderNew := by
+    funext k; simp [VKey.render, countLast]
+  rw [hr]
+  exact h
 
 /-- D20a witness (regression case): main graph, `then` and `else` bodies each call `Add` first. -/
 def d20aTrace : List Item :=
@@ -292,8 +296,8 @@ def fAddMul : Fn := ⟨"addmul", "c18", "", ["a0", "a1"],
 
 example : ∀ it ∈ simpleTrace, simpleItem it = true := by decide
 example : (build [fAddMul] simpleTrace).valueNames =
-    ["x", "const_1_f32", "v_blk.Add_0", "v_blk.Split_1_0", "v_blk.Split_1_1", "v_blk.Split_1_2",
-     "out", "v_addmul_2_1"] := by decide
+    ["x", "const_1_f32", "v_blk.Add_0", "v_blk.Split_0_1", "v_blk.Split_1_1", "v_blk.Split_2_1",
+     "out", "v_addmul_1_2"] := by decide
 
 /-- D20c witness (regression case): `call_inline` of a function returning its own input. -/
 def fIdent : Fn := ⟨"ident", "c18", "", ["a0"], [], ["a0"], []⟩
@@ -314,21 +318,26 @@ example : (buildPrefix [fIdent] d20cTrace).valueNames = ["v_x", "v_x"] := by dec
 /-- on the current code the pass-through output keeps its name. -/
 example : (build [fIdent] d20cTrace).valueNames = ["x", "v_x"] := by decide
 
-/-- D20f: the rendering is not injective — `f` (4 outputs, node 1) and `f_1` (1 output, node 3) both give
-`v_f_1_3`, in a trace of plain calls. -/
+/-- D20f witness (regression case): `f` (4 outputs, node 1) and `f_1` (1 output, node 3), plain calls. -/
 def fFour : Fn := ⟨"f", "c18", "", ["a0"], [], ["a0", "a0", "a0", "a0"], []⟩
 def fOne : Fn := ⟨"f_1", "c18", "", ["a0"], [], ["a0"], []⟩
 def d20fTrace : List Item :=
   [.input "x", .op "Relu" [.ref 0] (.auto 1) none [] [], .call 0 [.ref 1] none [],
    .op "Add" [.ref 2, .ref 3] (.auto 1) none [] [], .call 1 [.ref 6] none []]
 
-theorem names_unique_refuted_opname :
-    ¬ (∀ (fns : List Fn) (tr : List Item), (∀ it ∈ tr, simpleItem it = true) →
-        (build fns tr).valueNames.Nodup) := by
+/-- **Before commit 5c71050** multi-output names were `{op}_{count}_{i}`: that rendering is not injective — `f`
+(output 3 of node 1) and `f_1` (node 3) both render `v_f_1_3`, so distinct tuples did not give distinct names. -/
+theorem names_render_prefix_refuted :
+    ¬ (∀ k k' : VKey, isAutoKey k = true → isAutoKey k' = true → VKey.renderOld k = VKey.renderOld k' → k = k') := by
   intro h
-  have := h [fFour, fOne] d20fTrace (by decide)
+  have := h (.auto [] "f" 1 (some 3)) (.auto [] "f_1" 3 none) rfl rfl (by decide)
   revert this
   decide
+
+/-- on the current code the witness has pairwise distinct names. -/
+example : (build [fFour, fOne] d20fTrace).valueNames =
+    ["x", "v_Relu_0", "v_f_0_1", "v_f_1_1", "v_f_2_1", "v_f_3_1", "v_Add_2", "v_f_1_3"] := by decide
+example : (build [fFour, fOne] d20fTrace).valueNames.Nodup := by decide
 
 /-! ## Part C — the built graph is well-formed and computes the trace; inlining = calling -/
 
@@ -353,18 +362,21 @@ theorem build_all_defined (fns : List Fn) (tr : List Item) :
     ∀ i, i < (build fns tr).vnames.length → Defined (build fns tr) i :=
   fun i hi => (Bnd.foldlAll true fns tr St.init Bnd.init).defined i hi (by simp)
 
-/-- **The graph computes the trace** (`build_computes_trace`).  For every subgraph-free, inline-free trace,
-every interpretation `S` of the operators as functions of their input values (A-op; function-call nodes are
-operators named by (domain, name, overload)), and every argument list: evaluating the root graph of
-`build tr` — initializers holding their literal's value, graph inputs the arguments, nodes in order — gives
-at every handle exactly the value the trace's own replay gives (operands = handles, literals, `None`).
-It holds for all trace lengths and all sharing of constants through the cache (a cache hit returns an
-initializer with the *same* value because the key is `(repr, dtype)`). -/
+/-- **The graph computes the trace** (`build_computes_trace`).  For every subgraph-free trace — operator calls with
+handles, literals and `None` as operands, attributes, function calls, **`call_inline`**, module scopes, explicit
+names — every interpretation `S` of the operators as functions of (attributes, input values) (A-op; a function-call
+node is the operator named by (domain, name, overload)), and every argument list: evaluating the root graph of
+`build tr` — initializers holding their literal's value, graph inputs the arguments, nodes in order — gives at every
+handle exactly the value the trace's own replay gives, where the replay of `call_inline f` is *what calling `f`
+means* (`callMeaning`: the body under the passed attributes and declared defaults).  So, at the level of whole
+traces: inlining = calling, constants shared through the cache keep their values, and nothing else is disturbed.
+Hypothesis: function bodies are SSA (each body node's output names are distinct).
+`_partial`: no `subgraph` items (graph-valued attributes are not interpreted). -/
 theorem build_computes_trace_partial {α : Type} (S : OpSem α) (fns : List Fn) (args : List α) (tr : List Item)
-    (h : ∀ it ∈ tr, simItem it = true) :
+    (hssa : ∀ f ∈ fns, ∀ n ∈ f.nodes, n.outs.Nodup) (h : ∀ it ∈ tr, simItem it = true) :
     (build fns tr).handles.map (fun o => o.bind (evalGraph S (build fns tr) args))
       = (replay S fns args tr).henv :=
-  (sim_foldl S fns args true tr St.init ⟨[], 0⟩ h (Sim.init S args)).vals
+  (sim_foldl S fns args hssa tr St.init ⟨[], 0⟩ h (Sim.init S args)).vals
 
 /-- **Inlining = calling, α-renaming** (`inline_eq_call`, functions without attributes).  The nodes
 `call_inline` makes from the body of `f` (`inlineClones`: formals ↦ actuals, every body value a fresh id,
@@ -517,14 +529,15 @@ def semTrace : List Item :=
   [.input "x", .input "y", .op "Add" [.ref 0, .lit (.num "3" 3000 "i64")] (.auto 1) none [] [],
    .push "blk", .op "Mul" [.ref 2, .ref 1] (.named ["p"]) none [] [], .pop,
    .op "Add" [.lit (.num "3" 3000 "i64"), .ref 3] (.auto 1) none [] [], .call 0 [.ref 4, .ref 0] none [],
-   .output 6 (some "out")]
+   .inline 0 [.ref 5, .ref 1] none "pre" [], .output 8 (some "out")]
 
 example : ∀ it ∈ semTrace, simItem it = true := by decide
 example : (replay intSem [fAddMul] [5, 7] semTrace).henv =
-    [some 5, some 7, some 8, some 56, some 59, some 64, some 295] := by decide
+    [some 5, some 7, some 8, some 56, some 59, some 64, some 295, some 71, some 448] := by decide
+example : ∀ f ∈ [fAddMul], ∀ n ∈ f.nodes, n.outs.Nodup := by decide
 example : (build [fAddMul] semTrace).handles.map
       (fun o => o.bind (evalGraph intSem (build [fAddMul] semTrace) [5, 7]))
-    = [some 5, some 7, some 8, some 56, some 59, some 64, some 295] := by decide
+    = [some 5, some 7, some 8, some 56, some 59, some 64, some 295, some 71, some 448] := by decide
 
 /-- `inline_eq_call_partial` instance: inlining `addmul(x, y)` into a graph with inputs 0 ↦ 5, 1 ↦ 7. -/
 def twoInputs : St := build [] [.input "x", .input "y"]
